@@ -44,6 +44,12 @@ func replayNative(rec *replayFile) (kind string, reproduced bool, note string) {
 		ok, n := replayEngine(rec)
 		return "engine", ok, n
 	}
+	if hs := findSpec(rec); hs != nil && len(hs.spec.Overrides) > 0 {
+		// the harness runs with function overrides (uninterpreted stubs) that have no native
+		// counterpart: the deterministic engine re-execution is the replay of record
+		ok, n := replayEngine(rec)
+		return "engine", ok, n + " (harness uses stub overrides)"
+	}
 	ov, err := harnessOverlay(true)
 	if err != nil {
 		return "native", false, err.Error()
@@ -135,25 +141,60 @@ func grepLine(txt, pat string) string {
 	return ""
 }
 
+// findSpec locates the registered harness spec a replay record belongs to (same name and,
+// when several specs share the name, the same parameters).
+func findSpec(rec *replayFile) *specRef {
+	def, ok := checks[rec.Property]
+	if !ok {
+		return nil
+	}
+	var first *specRef
+	for _, t := range []string{rec.Tier, "quick", "thorough"} {
+		for _, s := range def.specs(t) {
+			if s.spec.Name != rec.Violation.Harness {
+				continue
+			}
+			s := s
+			if first == nil {
+				first = &s
+			}
+			same := len(s.spec.Params) == len(rec.Params)
+			for k, v := range s.spec.Params {
+				if rec.Params[k] != v {
+					same = false
+				}
+			}
+			if same {
+				return &s
+			}
+		}
+	}
+	return first
+}
+
 // replayEngine re-executes the recorded decision vector deterministically.
 func replayEngine(rec *replayFile) (bool, string) {
 	def, ok := checks[rec.Property]
 	if !ok {
 		return false, "unknown property"
 	}
-	var hs *specRef
-	for _, s := range def.specs(rec.Tier) {
-		if s.spec.Name == rec.Violation.Harness {
-			s := s
-			hs = &s
-		}
-	}
+	_ = def
+	hs := findSpec(rec)
 	if hs == nil {
 		return false, "harness not registered"
 	}
 	p, err := loadProgram(hs.dir, []string{hs.spec.Pkg})
 	if err != nil {
 		return false, err.Error()
+	}
+	p.overrides = nil
+	if len(hs.spec.Overrides) > 0 {
+		p.overrides = map[string]*ssaFunc{}
+		for from, to := range hs.spec.Overrides {
+			if f := p.pkgs[hs.spec.Pkg].Func(to); f != nil {
+				p.overrides[from] = f
+			}
+		}
 	}
 	spec := *hs.spec
 	spec.MaxPaths = 1
